@@ -34,6 +34,9 @@ Definition ptr_eqb (a b : ptr) : bool :=
   end.
 
 Inductive change := ChInsertFirst | ChInsertLast | ChRemove | ChRaise | ChRaiseFront | ChLower | ChLowerBack.
+(* the requests tickit_window_raise / lower / raise_to_front / lower_to_back put into the queue *)
+Definition is_restack (c : change) : bool :=
+  match c with ChRaise | ChRaiseFront | ChLower | ChLowerBack => true | _ => false end.
 Inductive mtype := MPress | MDrag | MRelease | MWheel | MDragStart | MDragOutside | MDragDrop | MDragStop.
 Definition mtype_bit (t : mtype) : Z :=
   match t with
